@@ -87,25 +87,31 @@ class _Guard:
     fired = False
 
 @contextlib.contextmanager
-def hard_timeout(seconds):
+def hard_timeout(seconds, wall_factor=30):
     """yields a guard whose .fired tells whether the alarm went off -- the code under test may replace the HardTimeout
-    by an exception of its own (e.g. a context manager's __exit__ raising), so callers check .fired, not only the exception"""
+    by an exception of its own (e.g. a context manager's __exit__ raising), so callers check .fired, not only the exception.
+
+    The budget is CPU time of this process (ITIMER_PROF): code under test that does not return burns CPU, while a machine
+    whose cores are all busy only stretches wall-clock time -- a verdict must not flip because other jobs run.  A wall-clock
+    backstop of wall_factor x seconds catches code that blocks without computing."""
     g = _Guard()
     if threading.current_thread() is not threading.main_thread():
         yield g; return
-    old_handler = signal.getsignal(signal.SIGALRM)
-    outer = signal.getitimer(signal.ITIMER_REAL)[0]
+    old_prof = signal.getsignal(signal.SIGPROF); old_alrm = signal.getsignal(signal.SIGALRM)
+    outer_prof = signal.getitimer(signal.ITIMER_PROF)[0]; outer_real = signal.getitimer(signal.ITIMER_REAL)[0]
     def handler(sig, frm):
         g.fired = True
         raise HardTimeout()
-    signal.signal(signal.SIGALRM, handler)
+    signal.signal(signal.SIGPROF, handler); signal.signal(signal.SIGALRM, handler)
     # periodic: code under test that catches the first alarm (a retry loop, an __exit__ that raises) is interrupted again
-    signal.setitimer(signal.ITIMER_REAL, min(seconds, outer) if outer else seconds, 0.25)
-    t0 = time.time()
+    signal.setitimer(signal.ITIMER_PROF, min(seconds, outer_prof) if outer_prof else seconds, 0.25)
+    wall = seconds * wall_factor
+    signal.setitimer(signal.ITIMER_REAL, min(wall, outer_real) if outer_real else wall, 0.25)
+    t0 = time.time(); c0 = time.process_time()
     try:
         yield g
     finally:
-        signal.setitimer(signal.ITIMER_REAL, 0)
-        signal.signal(signal.SIGALRM, old_handler)
-        if outer:
-            signal.setitimer(signal.ITIMER_REAL, max(outer - (time.time() - t0), 0.01))
+        signal.setitimer(signal.ITIMER_PROF, 0); signal.setitimer(signal.ITIMER_REAL, 0)
+        signal.signal(signal.SIGPROF, old_prof); signal.signal(signal.SIGALRM, old_alrm)
+        if outer_prof: signal.setitimer(signal.ITIMER_PROF, max(outer_prof - (time.process_time() - c0), 0.01))
+        if outer_real: signal.setitimer(signal.ITIMER_REAL, max(outer_real - (time.time() - t0), 0.01))
